@@ -18,14 +18,14 @@ CFG = dict(
     corr_name='Model/Opt.v optimize vs Optimizer::optimize (tree equality) and Model/IR.v den vs CodeGenerator::execute',
     rule='corpus (pushdown to the right join input x2, always-false branch in front of a Union under a join x2, union of two joins under the join planner) then per seed: 3/4 random well-typed IR trees '
          '(depth <= 5, all 12 node kinds, every Predicate constructor incl. And/Or/ColumnCompareArith/ArithCompareConst with out-of-range and ill-typed columns, Compute expressions, '
-         'aggregates count/count_distinct/sum/min/max; 1/8 with Filter(False)/Union[] allowed; 1/16 with repeated right join keys; 1/16 malformed: an index broken) through Optimizer::optimize '
+         'aggregates count/count_distinct/sum/min/max; 1/8 with Filter(False)/Union[] allowed; 1/8 with repeated right join keys; 1/16 malformed: an index broken) through Optimizer::optimize '
          '(1/5 also through BooleanSpecializer), 1/4 rule text (1-2 clauses, 1-3 atoms + constants, wildcards, comparisons, negation, aggregate heads) through the real parser + IRBuilder and then '
          'through optimize / plan_joins / specialize / all three; every tree executed before and after on a random typed database (6 relations, 0-8 tuples). '
          'Non-trivial = the pass changed the tree and the answer is non-empty; distinct by pass + tree + database.',
     trusted_base=['Model/IR.v den: hand-written denotation of the 12 IRNode kinds, validated against CodeGenerator::execute on every case (input tree and optimized tree incl. FlatMap/JoinFlatMap)',
                   'Model/Opt.v: hand-written model of Optimizer::optimize, validated by structural equality with the real optimizer output on every case',
                   'Differential Dataflow / timely: not modelled'],
-    assumptions=['wfd d t: schema lengths equal tuple widths in d, projection/key/group-by indices in range, equal-length key lists, no repeated right key, Union inputs of equal width',
+    assumptions=['wfd d t: schema lengths equal tuple widths in d, projection/key/group-by indices in range, equal-length key lists (repeated right keys allowed), Union inputs of equal width',
                  'novoid t: no Filter(_,False), no Union[] (only for the composite theorem)',
                  'Counting semiring (isize diffs); BooleanDiff saturates at 127 duplicates',
                  'floats are NaN-free multiples of 2^-k; i64 arithmetic in predicates does not overflow; Sum is the clamped exact sum'],
